@@ -145,6 +145,18 @@ class CFG:
         """Every path start(entry) -> target uses one of `edges` [(node,label)]."""
         return target not in self.reach([start or self.entry], avoid_edges=edges)
 
+    def dominating_tests(self, target, skip=lambda e: False):
+        """{(text of the atomic test, 'T'|'F')} of all test edges every path entry -> target
+        takes (the guard of the node as the code states it, whatever the nesting / and-chain)."""
+        out = set()
+        for n in self.nodes:
+            if n.kind != "test" or skip(n.ast):
+                continue
+            for lab in ("T", "F"):
+                if any(l == lab for l, _ in n.succ) and self.dominated_by_edges(target, [(n, lab)]):
+                    out.add((unparse(n.ast), lab))
+        return out
+
     def must_pass(self, sources, through, exits=None, escape_edges=(), escape_nodes=()):
         """Return list of exit nodes reachable from `sources` (after leaving them)
         without passing `through` nodes, ignoring escape edges/nodes.  Empty list
